@@ -126,6 +126,20 @@ errcode_t ext2fs_read_inode(ext2_filsys fs, ext2_ino_t ino, struct ext2_inode *i
 	return 0;
 }
 
+/*
+ * ghost steps of the named anchors: the loop contracts havoc the cursors 'end' / 'entry'; re-assigning them the value
+ * the invariant says they have (asserted to be the identity) gives CBMC exact points-to information for the reads
+ * through them; verif_g3 tracks the offset of the second walk's cursor.
+ */
+#define VERIF_XS_READ_BUF_GHOST1 \
+	VERIF_GHOST(__CPROVER_assert((char *)end == (char *)entries + (storage_size - remain), "CHECK:ghost re-derivation of 'end' is the identity"); \
+		    end = (struct ext2_ext_attr_entry *)((char *)entries + (storage_size - remain));)
+#define VERIF_XS_READ_BUF_GHOST2 \
+	VERIF_GHOST(__CPROVER_assert((char *)entry == (char *)entries + verif_g3, "CHECK:ghost re-derivation of 'entry' is the identity"); \
+		    entry = (struct ext2_ext_attr_entry *)((char *)entries + verif_g3);)
+#define VERIF_XS_READ_BUF_GHOST2_END \
+	VERIF_GHOST(verif_g3 = (unsigned long long)(__CPROVER_POINTER_OFFSET(entry) - __CPROVER_POINTER_OFFSET(entries));)
+
 #include "lib/ext2fs/ext_attr.c"
 
 static const char *find_ea_prefix(int index)
@@ -143,10 +157,10 @@ errcode_t ext2fs_ext_attr_hash_entry3(ext2_filsys fs, struct ext2_ext_attr_entry
 static errcode_t read_xattrs_from_buffer(struct ext2_xattr_handle *handle, struct ext2_inode_large *inode,
 					 struct ext2_ext_attr_entry *entries, unsigned int storage_size, char *value_start)
 	REQUIRES((const unsigned char *)handle->attrs == verif_p0 && (unsigned long long)handle->count == verif_g0 &&
-		 (unsigned long long)handle->capacity == verif_g1 && verif_g1 >= verif_g0 + storage_size / 16 + 1)
+		 (unsigned long long)handle->capacity == verif_g1 && verif_g1 >= verif_g0 + storage_size / 16 + 1 && verif_g3 == 0)
 	ENSURES((unsigned long long)handle->count >= verif_g0 && (unsigned long long)handle->count - verif_g0 <= storage_size / 16)
 	ENSURES((const unsigned char *)handle->attrs == verif_p0 && (unsigned long long)handle->capacity == verif_g1)
-	ASSIGNS(handle->count, __CPROVER_object_whole(handle->attrs), verif_g2);
+	ASSIGNS(handle->count, __CPROVER_object_whole(handle->attrs), verif_g2, verif_g3);
 
 void h_read_buffer(void)
 {
@@ -172,7 +186,7 @@ void h_read_buffer(void)
 	verif_p0 = (const unsigned char *)a;
 	verif_g0 = (unsigned long long)IN.count0;
 	verif_g1 = (unsigned long long)cap;
-	verif_g2 = 0;
+	verif_g2 = 0; verif_g3 = 0;
 	EA_INODE = IN.ea_inode;
 	g_prefix = malloc(25);
 	ASSUME(g_prefix != 0);
